@@ -260,6 +260,17 @@ def run_history(start, hist, tmpdir, judge_last=True):
     return st, viol, out
 
 
+def hidden(m):
+    """every scalar (bool / int / None) attribute of the master besides the table: state that may
+    influence later events (e.g. a pending-request flag) must not be merged away by the dedup.
+    Generic on purpose (no attribute names); configuration constants simply never differ."""
+    return tuple(sorted((k, v) for k, v in vars(m).items() if isinstance(v, (bool, int)) or v is None))
+
+
+def state_key(m):
+    return (tuple(sorted(table_of(m))), hidden(m))
+
+
 def w_expand(item, rep):
     start, hists, ids, collect, tag, vias = item
     tmpdir = tempfile.mkdtemp(prefix="vf_c16_", dir="/tmp")
@@ -280,7 +291,7 @@ def w_expand(item, rep):
                 rep.outcome(out)
                 for sig, what in viol:
                     rep.violation(sig, what, {"part": "bfs", "start": start, "history": list(hist) + [ev]})
-                key = tuple(sorted(table_of(st2[1])))
+                key = state_key(st2[1])
                 if collect == "full":
                     succ.append((key, tuple(hist) + (ev,)))
                 else:
@@ -295,7 +306,7 @@ def bfs_parallel(start, ids, depth, rep, max_states, vias=VIAS):
     """level-synchronous E-BFS with global dedup on the lease table (sorted id->address map).
     A frontier state is identified by the shortest, lexicographically first history reaching it
     and is rebuilt by re-executing that history on a fresh master."""
-    seen = {tuple(sorted(STARTS[start]))}
+    seen = {state_key(mk_master(STARTS[start])[1])}
     frontier = [()]
     rep.states += 1
     done = 0
@@ -388,7 +399,7 @@ def run(tier, seed, rep, only=None):
     return dict(
         level="model_checking",
         exhaustive=True,
-        rule="E-BFS, level-synchronous with global dedup on the lease table (as a sorted id->address map), over every event sequence up to the "
+        rule="E-BFS, level-synchronous with global dedup on (lease table as a sorted id->address map, every scalar attribute of the master), over every event sequence up to the "
              "depth bound from 4 starting tables {empty, level 1 full, one slot free, relay 0o1's children full} on a real RF24Mesh master "
              "(node id 0); a corner family with relays {0o444, 0o1} from 2 tables (0o444 is the only parent whose slot 4 is 0o4444)"
              + ("; thorough: additionally ids {1,2,3,4,255} to depth 5 from 2 tables" if tier != "quick" else "") +
